@@ -362,6 +362,75 @@ mod __verif_c05s {
     }
 
     // @harness tiers=quick,thorough timeout=900
+    // @encodes storage::row_group_pruning::row_group_might_match, storage::row_group_pruning::row_group_definitely_matches, storage::row_group_pruning::check_comparison, storage::row_group_pruning::definite_comparison, storage::row_group_pruning::check_f64_stats
+    // @bounds one DOUBLE column with symbolic Double statistics (non-NaN, min <= v <= max in IEEE order, any/unknown null count; the witness row may be NULL when nulls are possible); predicate `c op lit` and `lit op c`; literal kinds DOUBLE (every f64 incl. NaN, +-0, +-inf) and BIGINT
+    // @oracle the interpreter compares in f64 by totalOrder (a BIGINT literal is cast to double); predicate TRUE on the witness row => group not skipped; filter elided => predicate TRUE on the witness row -- under totalOrder AND under IEEE operators (the compiled path)
+    // @out NaN values stored in the row group (Parquet statistics ignore NaN)
+    #[kani::proof]
+    #[kani::unwind(3)]
+    fn leaf_comparison_full_path_double_column() {
+        let (min, max, v): (f64, f64, f64) = kani::any();
+        kani::assume(!min.is_nan() && !max.is_nan() && !v.is_nan());
+        kani::assume(min <= v && v <= max);
+        let nulls: Option<u64> = kani::any();
+        let is_null_row: bool = kani::any();
+        kani::assume(!is_null_row || nulls != Some(0));
+        let st = ParquetStatistics::double(Some(min), Some(max), None, nulls, false);
+        let rg = RowGroupMetaData::verif_new(vec![Some(st)], 2);
+        let schema: SchemaRef = Arc::new(Schema::new(vec![Field::new("c", DataType::Float64, true)]));
+        let ieee = |op: BinaryOp, a: f64, b: f64| match op {
+            BinaryOp::Eq => a == b,
+            BinaryOp::NotEq => a != b,
+            BinaryOp::Lt => a < b,
+            BinaryOp::LtEq => a <= b,
+            BinaryOp::Gt => a > b,
+            BinaryOp::GtEq => a >= b,
+            _ => true,
+        };
+        // shape iterated concretely: column on the left, then on the right
+        let mut flipped = false;
+        let mut round = 0;
+        while round < 2 {
+            let op = any_cmp_op();
+            let is_int: bool = kani::any();
+            let (lit_f, lit_e) = if is_int {
+                let x: i64 = kani::any();
+                (x as f64, Expr::Literal(ScalarValue::Int64(x)))
+            } else {
+                let x: f64 = kani::any();
+                (x, Expr::Literal(ScalarValue::Float64(OrderedFloat(x))))
+            };
+            let col = Box::new(Expr::Column(Column::new("c")));
+            let pred = if flipped {
+                Expr::BinaryExpr { left: Box::new(lit_e), op, right: col }
+            } else {
+                Expr::BinaryExpr { left: col, op, right: Box::new(lit_e) }
+            };
+            let might = row_group_might_match(&pred, &rg, &schema);
+            let def = row_group_definitely_matches(&pred, &rg, &schema);
+            kani::cover!(def);
+            kani::cover!(!might);
+            if !is_null_row {
+                let ord = if flipped { lit_f.total_cmp(&v) } else { v.total_cmp(&lit_f) };
+                let t_total = cmp_ord(op, ord);
+                let t_ieee = if flipped { ieee(op, lit_f, v) } else { ieee(op, v, lit_f) };
+                if t_total || t_ieee {
+                    assert!(might, "C05.double_row_kept_by_predicate_is_never_skipped");
+                }
+                if def {
+                    assert!(t_total && t_ieee, "C05.double_filter_elided_only_if_true_for_every_row");
+                }
+            } else if def {
+                assert!(false, "C05.double_filter_elided_despite_a_null_row");
+            }
+            std::mem::forget(pred);
+            flipped = true;
+            round += 1;
+        }
+        std::mem::forget((rg, schema));
+    }
+
+    // @harness tiers=quick,thorough timeout=900
     // @encodes storage::row_group_pruning::prune_row_groups
     // @bounds a file of two row groups, each one BIGINT column with symbolic statistics; predicate = one comparison with a BIGINT literal
     // @oracle prune_row_groups returns exactly the ascending indices i for which row_group_might_match(pred, rg_i) holds; with no predicate, every index
